@@ -931,6 +931,89 @@ impl Runtime {
     }
 }
 
+/// Read-only view of VM bookkeeping for the simulator (feature `verif`).
+#[cfg(feature = "verif")]
+#[derive(Debug, Clone, PartialEq)]
+pub struct VerifProbe {
+    /// program counter is inside the stored (indirect) program
+    pub in_program: bool,
+    pub pc: Address,
+    pub entry_address: Address,
+    pub state: &'static str,
+    pub cont: &'static str,
+    pub stack_len: usize,
+    /// number of Return / Next markers among the stack values
+    pub stack_returns: usize,
+    pub stack_nexts: usize,
+    pub vars_len: usize,
+    pub dims_len: usize,
+    pub functions_len: usize,
+    pub print_col: usize,
+    pub data_pos: Address,
+    pub dirty: bool,
+    pub tron: bool,
+    pub next_opcode: String,
+    pub program_len: usize,
+}
+
+#[cfg(feature = "verif")]
+impl Runtime {
+    pub fn verif_probe(&self) -> VerifProbe {
+        fn kind(s: &State) -> &'static str {
+            match s {
+                State::Intro => "Intro",
+                State::Stopped => "Stopped",
+                State::Listing(_) => "Listing",
+                State::RuntimeError(_) => "RuntimeError",
+                State::Running => "Running",
+                State::Input => "Input",
+                State::InputRedo => "InputRedo",
+                State::InputRunning => "InputRunning",
+                State::Interrupt => "Interrupt",
+                State::Inkey => "Inkey",
+            }
+        }
+        let mut stack_returns = 0;
+        let mut stack_nexts = 0;
+        for i in 0..self.stack.len() {
+            match self.stack.get(i) {
+                Some(Val::Return(_)) => stack_returns += 1,
+                Some(Val::Next(_)) => stack_nexts += 1,
+                _ => {}
+            }
+        }
+        let next_opcode = match self.program.get(self.pc) {
+            Some(op) => {
+                let s = format!("{:?}", op);
+                s.split(|c: char| !c.is_ascii_alphanumeric())
+                    .next()
+                    .unwrap_or("")
+                    .to_string()
+            }
+            None => "None".to_string(),
+        };
+        VerifProbe {
+            in_program: self.pc < self.entry_address,
+            pc: self.pc,
+            entry_address: self.entry_address,
+            state: kind(&self.state),
+            cont: kind(&self.cont),
+            stack_len: self.stack.len(),
+            stack_returns,
+            stack_nexts,
+            vars_len: self.vars.verif_len(),
+            dims_len: self.vars.verif_dims_len(),
+            functions_len: self.functions.len(),
+            print_col: self.print_col,
+            data_pos: self.program.verif_data_pos(),
+            dirty: self.dirty,
+            tron: self.tron,
+            next_opcode,
+            program_len: self.program.verif_len(),
+        }
+    }
+}
+
 type RuntimeStack = Stack<Val>;
 
 trait RuntimeStackTrait<T> {
